@@ -78,9 +78,29 @@ def ev(e, env):
         return True
     if isinstance(e, ast.Subscript):
         return ev(e.value, env)[ev(e.slice, env)]
+    if isinstance(e, ast.Set):
+        return set(ev(x, env) for x in e.elts)
     if isinstance(e, ast.Call):
         if isinstance(e.func, ast.Name) and e.func.id == 'len' and len(e.args) == 1:
             return len(ev(e.args[0], env))
+        if isinstance(e.func, ast.Name) and e.func.id in env.get('__funcs__', {}):
+            fn = env['__funcs__'][e.func.id]
+            params = [a.arg for a in fn.args.args]
+            args = [ev(a, env) for a in e.args]
+            sub = dict(zip(params, args))
+            for k in e.keywords:
+                sub[k.arg] = ev(k.value, env)
+            for kk in ('__funcs__', '__consts__'):
+                if kk in env:
+                    sub[kk] = env[kk]
+            for k, v in env.get('__consts__', {}).items():
+                sub.setdefault(k, v)
+            r = fold_function(fn, sub)
+            if r is UNKNOWN:
+                raise KeyError('helper')
+            return r
+        if isinstance(e.func, ast.Name) and e.func.id in ('set', 'frozenset', 'tuple', 'list') and len(e.args) == 1:
+            return {'set': set, 'frozenset': frozenset, 'tuple': tuple, 'list': list}[e.func.id](ev(e.args[0], env))
         if isinstance(e.func, ast.Attribute) and e.func.attr == 'get':
             base = ev(e.func.value, env)
             args = [ev(a, env) for a in e.args]
